@@ -123,3 +123,22 @@ Theorem C06_step_monitor_holds_of_model :
     end.
 Proof. exact c06s_spec_of_model. Qed.
 Print Assumptions C06_step_monitor_holds_of_model.
+
+(* The attribute statement is exactly the list built from this session for the routed
+   descriptor (names, formats, value lists, order); eduPersonPrincipalName carries the
+   session's principal name and falls back to the mail only when there is none. *)
+Theorem C06_attributes_exact :
+  forall cfg cp rt rq s now tnow addr relay rnd action resp rl,
+    respond cfg cp rt rq s now tnow addr relay rnd = Ok (action, resp, rl) ->
+    a_attributes (fst (inner_assertion resp)) = session_attributes (choose_attr_service (attr_services (rt_desc rt))) s.
+Proof. exact respond_attributes_exact. Qed.
+Print Assumptions C06_attributes_exact.
+
+Theorem C06_eppn_fallback :
+  forall svc s,
+    (ss_eppn s <> "" \/ ss_email s <> "") ->
+    In (uri_attr "eduPersonPrincipalName" "urn:oid:1.3.6.1.4.1.5923.1.1.1.6"
+                 [xs_val (if nonempty (ss_eppn s) then ss_eppn s else ss_email s)])
+       (session_attributes svc s).
+Proof. exact session_attributes_eppn. Qed.
+Print Assumptions C06_eppn_fallback.
